@@ -18,7 +18,7 @@ META = {
     "reference (vf/refsem.py: nested loops over grid states and grid choices, filters, constraints, u + beta*E[V_next] with exact "
     "lookup in discrete and multilinear interpolation/extrapolation in continuous states, -inf when nothing is feasible), through "
     "the documented axis layout. JIT on and off are both executed.",
-    "bounds": "templates TA-TL (see vf/templates.py) with grids of 2-5 points (thorough: up to 9), 1-3 periods (thorough 4), <=3 "
+    "bounds": "templates TA-TL (see vf/templates.py) with grids of 2-5 points (thorough: up to 9), 1-3 periods (thorough up to 5), <=3 "
     "states, <=4 choice variables, <=3 labels; parameters symbolic except where listed per unit; transitions concrete unless the "
     "unit says otherwise",
     "outside": "floating-point rounding; model structures outside the template family; larger grids/horizons; log-grid states "
@@ -35,6 +35,7 @@ QUICK = [
     ("TA", dict(T=2, sym_k=True)),
     ("TA", dict(T=3)),
     ("TA", dict(T=2, nw=3, nc=2, sym_g=True)),
+    ("TA", dict(T=2, nw=3, nc=2, sym_g=True, borrow=True)),  # a constraint consuming the output of next_w
     ("TB", dict(T=2)),
     ("TB", dict(T=3, order=1)),
     ("TC", dict(T=2)),
@@ -58,17 +59,35 @@ QUICK = [
 THOROUGH = QUICK + [
     ("TA", dict(T=4)),
     ("TA", dict(T=2, nw=9, nc=5)),
+    ("TA", dict(T=3, nw=9, nc=3)),
     ("TA", dict(T=3, sym_k=True)),
+    ("TA", dict(T=2, sym_g=True)),
+    ("TA", dict(T=3, nw=3, nc=2, sym_g=True)),
+    ("TA", dict(T=2, sym_k=True, sym_g=True, lower=True)),
+    ("TA", dict(T=3, sym_g=True, borrow=True)),
+    ("TB", dict(T=4)),
     ("TC", dict(T=3)),
+    ("TC", dict(T=4, nw=3, nc=2)),
     ("TD", dict(T=3)),
     ("TD", dict(T=2, with_x=False)),
+    ("TD", dict(T=2, nw=5)),
     ("TE", dict(T=3)),
     ("TE", dict(T=2, dep=("_period",))),
+    ("TE", dict(T=3, dep=("_period", "h"))),
+    ("TE", dict(T=2, dep=("d",))),
+    ("TF", dict(T=4)),
     ("TG", dict(T=3)),
-    ("TH", dict(T=4)),
+    ("TG", dict(T=3, up=True)),
+    ("TH", dict(T=5)),
     ("TJ", dict(T=3)),
     ("TK", dict(T=3)),
+    ("TK", dict(T=3), (1, 0), None, (2, 1, 0)),
     ("TL", dict(T=3)),
+    ("TL", dict(T=2, sym_next=True)),
+    ("TM", dict(T=3)),
+    ("TN", dict(T=3)),
+    ("TP", dict(T=4)),
+    ("TQ", dict(T=3)),
 ]
 
 
@@ -112,7 +131,7 @@ def u_solve(rec, spec, jit_too=True):
             cache[key] = conc_solve(tm, solve if which == "nojit" else solve_jit, vals)
         return cache[key]
 
-    def mk_replay(t, idx, refterm, which="nojit"):
+    def mk_replay(t, idx, refterm, which="nojit", full=None):
         def one(vals):
             obs = concrete(vals, which)
             if len(obs) != T or idx is None or len(idx) != obs[t].ndim or any(i >= n for i, n in zip(idx, obs[t].shape)):
@@ -137,6 +156,17 @@ def u_solve(rec, spec, jit_too=True):
                         return r
             except Exception:  # noqa: BLE001
                 pass
+            # ... and ask the solver for a counterexample of the COMPOSED claim (no abstraction of the
+            # next-period array): its model assigns the parameters only and replays as it stands
+            if full is not None:
+                try:
+                    from ..harness import model_assignment
+
+                    r0, mdl = rec._check(list(assume) + [z3.Not(full)], 30000)
+                    if r0 == "sat":
+                        return one({k: v for k, v in model_assignment(mdl, S.symbols).items() if k in S.symbols})
+                except Exception:  # noqa: BLE001
+                    pass
             return None
 
         return replay
@@ -178,7 +208,8 @@ def u_solve(rec, spec, jit_too=True):
                 n_abs += 1
             else:
                 e_a, r_a = e, r
-            rec.prove(f"V[{t}]{list(idx)}==bellman", sj.x_eq(e_a, r_a), assume, replay=mk_replay(t, idx, r))
+            full = sj.x_eq(e, r) if e_a is not e else None
+            rec.prove(f"V[{t}]{list(idx)}==bellman", sj.x_eq(e_a, r_a), assume, replay=mk_replay(t, idx, r, full=full if isinstance(full, z3.ExprRef) else None))
             # (iv) jit
             if Vjit is None:
                 continue
